@@ -60,7 +60,8 @@ class ManifestPathEntry:
     """Base class for entries using a path"""
 
     __slots__ = ['path']
-    disallowed_path_re = re.compile(r'[\x00-\x1F\x7F-\x9F\s\\]', re.U)
+    disallowed_path_re = re.compile(
+        r'[\x00-\x1F\x7F-\x9F\uD800-\uDFFF\s\\]', re.U)
     escape_seq_re = re.compile(
         r'\\(x[0-9a-fA-F]{2}|u[0-9a-fA-F]{4}|U[0-9a-fA-F]{8})?')
 
